@@ -339,32 +339,100 @@ def check_runlog(rl) -> list[tuple[str, str]]:
 EXCLUDED_NODE_CLASSES = ("ProgramNode", "BlankNode", "CommentNode", "InjectedNode", "NullNode")
 
 
-def check_completed_nodes(nodes, rl) -> list[tuple[str, str]]:
-    """last clause: every completed method instruction other than Stop / blank / comment lines has a Completed item
-    (counted per run-log name, so that repeated lines need repeated items).  When the missing Completed items are
-    matched by Cancelled items of the same name the failure gets its own key (an instruction whose item concluded
-    as Cancelled ran to completion anyway)."""
-    from collections import Counter
-    want: Counter = Counter()
-    for n in nodes:
-        cls = type(n).__name__
-        if cls in EXCLUDED_NODE_CLASSES or not n.completed:
-            continue
-        nm = n.runlog_name
-        if nm is None or nm == "Stop":
-            continue
-        want[nm] += 1
-    have: Counter = Counter(it.name for it in rl.items if str(it.state) == "completed")
-    canc: Counter = Counter(it.name for it in rl.items if str(it.state) == "cancelled")
-    for nm, k in sorted(want.items()):
-        if have[nm] + canc[nm] < k:
-            return [("completed-instruction-without-completed-item",
-                     f"{k} completed instruction(s) {nm!r}, {have[nm]} completed item(s)")]
-    for nm, k in sorted(want.items()):
-        if have[nm] < k:
-            return [("completed-instruction-shown-as-cancelled",
-                     f"{k} completed instruction(s) {nm!r}, {have[nm]} completed and {canc[nm]} cancelled item(s)")]
-    return []
+class CompletionLog:
+    """Last clause, per invocation.  Every write `node.completed = True` (False -> True) that the real interpreter /
+    tracking code performs is observed through a harness-side `__setattr__` hook on `ast.Node` (no repo change), so
+    the oracle sees every completion of every node, also those that are reset again within the same tick (Alarm
+    re-arm, macro re-invocation).  An event remembers the tracker, the tracker time and the instance id of the
+    invocation in progress (`record.last_instance_id`, the id `mark_completed` uses).  After the tick the run log must
+    show THE item of that invocation as Completed with that end time."""
+    current: "CompletionLog | None" = None
+    _patched = False
+
+    def __init__(self, engine):
+        self.engine = engine
+        self.events: list[dict] = []
+        self.seen_inst: dict[tuple[int, str], set] = {}   # (tracker, node id) -> instance ids of earlier completions
+        self.n_events = 0
+        self.n_repeat = 0
+
+    @classmethod
+    def install(cls):
+        if cls._patched:
+            return
+        cls._patched = True
+        import sys
+        import openpectus.lang.model.ast as p
+
+        def setattr_hook(self, name, value):
+            if name == "completed" and value and not self.__dict__.get("completed", False):
+                log = cls.current
+                if log is not None:
+                    caller = sys._getframe(1).f_code.co_name
+                    if caller != "apply_state":        # state transplant of a live edit, not an execution
+                        log.on_completed(self, caller)
+            object.__setattr__(self, name, value)
+        p.Node.__setattr__ = setattr_hook
+
+    def on_completed(self, node, caller: str):
+        tr = self.engine._tracking
+        if tr is None:
+            return
+        rec = tr.runtimeinfo.get_record_by_node(node.id)
+        self.events.append({"node": node, "tr": tr, "t": tr.tick_time, "caller": caller,
+                            "inst": rec.last_instance_id if rec is not None else None, "has_record": rec is not None})
+
+    def check(self, rl) -> list[tuple[str, str]]:
+        """Judge the completion events since the last call against the run log just produced."""
+        out: list[tuple[str, str]] = []
+        events, self.events = self.events, []
+        tr_now = self.engine._tracking
+        for ev in events:
+            node = ev["node"]
+            cls = type(node).__name__
+            if ev["tr"] is not tr_now or cls in EXCLUDED_NODE_CLASSES:
+                continue                       # interpreter was reset after the event / not a method instruction
+            nm = node.runlog_name
+            if nm is None or nm == "Stop":
+                continue
+            self.n_events += 1
+            rec = tr_now.runtimeinfo.get_record_by_node(node.id)
+            what = f"{cls} {nm!r} completed at {ev['t']} (set in {ev['caller']})"
+            if rec is None or ev["inst"] is None:
+                ids = {st.instance_id for st in rec.states} if rec is not None else set()
+                if not any(it.id in ids and str(it.state) == "completed" and it.end == ev["t"] for it in rl.items):
+                    out.append((f"completed-instruction-without-item:{cls}", what + ": its record has no invocation"))
+                continue
+            key_n = (id(tr_now), node.id)
+            earlier = self.seen_inst.setdefault(key_n, set())
+            item = next((it for it in rl.items if it.id == ev["inst"]), None)
+            if cls == "MacroNode" and item is not None and str(item.state) == "completed":
+                continue   # `Call macro` re-sets the flag of the definition line, which completed (and is shown) earlier
+            if ev["inst"] in earlier:
+                out.append((f"invocations-share-instance-id:{cls}",
+                            what + ": an earlier completion of this instruction had the same instance id"))
+            earlier.add(ev["inst"])
+            if len(earlier) > 1:
+                self.n_repeat += 1
+            if item is None:
+                out.append((f"completed-instruction-without-item:{cls}", what + ": no item with the id of this invocation"))
+            elif str(item.state) == "completed":
+                if item.end != ev["t"]:
+                    out.append((f"completed-instruction-has-stale-completed-item:{cls}",
+                                what + f": the item of this invocation is Completed with end {item.end}"))
+            else:
+                names = [str(st.state_name) for st in rec.states if st.instance_id == ev["inst"]]
+                site = ""
+                if str(item.state) == "cancelled":
+                    k = names.index("cancelled") if "cancelled" in names else len(names)
+                    site = ":cancelled-before-start" if "started" not in names[:k] else ":cancelled-after-start"
+                    mine = [st for st in rec.states if st.instance_id == ev["inst"]]
+                    if mine and any(st.instance_id != ev["inst"] and str(st.state_name) == "created"
+                                    and st.state_tick == mine[0].state_tick for st in rec.states):
+                        site += ":double-visit"     # the node was visited twice in the tick this invocation began
+                out.append((f"completed-instruction-shown-as-{item.state}:{cls}{site}",
+                            what + f": the item of this invocation shows {item.state}; states {names}"))
+        return out
 
 
 # ----------------------------------------------------------------------------------------
@@ -411,12 +479,13 @@ def run_case(case: dict, guard: bool = True, with_ops: bool = True) -> dict:
     seen_keys: set[str] = set()
     stats = {"ticks": 0, "items": 0, "cancel_ok": 0, "force_ok": 0, "late_requests": 0, "edits_ok": 0, "injects_ok": 0,
              "conclusive_items": 0, "runlogs": 0, "failed_items": 0}
+    CompletionLog.install()
     run = flaky_engine_run(case["pcode"])
+    clog = CompletionLog(run.engine)
+    CompletionLog.current = clog
     edited = False
 
     def fail(key: str, detail: str, tick: int):
-        if edited and key == "completed-instruction-without-completed-item":
-            key += "-after-edit"
         if key not in seen_keys:
             seen_keys.add(key)
             fails.append((key, detail, tick))
@@ -434,7 +503,7 @@ def run_case(case: dict, guard: bool = True, with_ops: bool = True) -> dict:
             return None
         for key, detail in check_runlog(rl):
             fail(key, detail, tick)
-        for key, detail in check_completed_nodes(run.program_nodes(), rl):
+        for key, detail in clog.check(rl):
             fail(key, detail, tick)
         stats["items"] = max(stats["items"], len(rl.items))
         stats["failed_items"] = max(stats["failed_items"], sum(1 for it in rl.items if str(it.state) == "failed"))
@@ -481,8 +550,11 @@ def run_case(case: dict, guard: bool = True, with_ops: bool = True) -> dict:
             rl = observe(k + 1)
     finally:
         TrackLog.current = None
+        CompletionLog.current = None
         run.close()
     stats["stale_tracking_calls"] = log.stale_calls
+    stats["completion_events"] = clog.n_events
+    stats["repeated_invocation_completions"] = clog.n_repeat
     return {"lines": log.lines, "outs": log.outs, "fails": fails, "stats": stats, "counts": log.counts}
 
 
